@@ -145,7 +145,7 @@ def enum_air_sweep(ctx):
                     c = {"st": stp, "ic": rng.getrandbits(1), "ifr": rng.getrandbits(1), "nac": rng.getrandbits(3), "s1": rng.getrandbits(1),
                          "f1": rng.randint(0, 1023), "s2": rng.getrandbits(1), "f2": rng.randint(0, 1023), "vrsrc": rng.getrandbits(1),
                          "vrsign": rng.getrandbits(1), "vr": rng.randint(0, 511), "rsv": rng.getrandbits(2), "dsign": rng.getrandbits(1),
-                         "diff": rng.randint(0, 127), "ctx_addr": rng.getrandbits(24), "ctx_ca": rng.getrandbits(3), "df": rng.choice([17, 18]),
+                         "diff": rng.randint(0, 127), "ctx_addr": gen.addr24(rng), "ctx_ca": rng.getrandbits(3), "df": rng.choice([17, 18]),
                          "hc": rng.choice("ULM")}
                     if which in ("f1", "f2") and rng.random() < 0.7:  # keep the other component available so the swept one decides
                         c["f1"] = max(c["f1"], 1)
@@ -178,7 +178,7 @@ def enum_surface(ctx):
                 idx += 1
                 if ctx.mine(idx):
                     rng = ctx.rng("sf", idx)
-                    yield {"mov": mov, "status": status, "trk": trk, "tc": rng.randint(5, 8), "ctx_low": rng.getrandbits(36), "ctx_addr": rng.getrandbits(24),
+                    yield {"mov": mov, "status": status, "trk": trk, "tc": rng.randint(5, 8), "ctx_low": rng.getrandbits(36), "ctx_addr": gen.addr24(rng),
                            "df": rng.choice([17, 18]), "hc": rng.choice("ULM")}
 
 
@@ -242,7 +242,7 @@ def enum_whole(ctx):
                         rng = ctx.rng("whole", x, y, signs, stp)
                         yield {"st": stp, "ic": rng.getrandbits(1), "ifr": rng.getrandbits(1), "nac": rng.getrandbits(3), "s1": signs & 1, "f1": x + 1, "s2": signs >> 1, "f2": y + 1,
                                "vrsrc": rng.getrandbits(1), "vrsign": rng.getrandbits(1), "vr": rng.randint(0, 511), "rsv": rng.getrandbits(2), "dsign": rng.getrandbits(1),
-                               "diff": rng.randint(0, 127), "ctx_addr": rng.getrandbits(24), "ctx_ca": rng.getrandbits(3), "df": rng.choice([17, 18]), "hc": rng.choice("ULM")}
+                               "diff": rng.randint(0, 127), "ctx_addr": gen.addr24(rng), "ctx_ca": rng.getrandbits(3), "df": rng.choice([17, 18]), "hc": rng.choice("ULM")}
 
 
 def enum_corpus(ctx):
